@@ -604,6 +604,7 @@ def enum_paths(stmt, limit=4000):
                         if kind == 'DeclStmt':
                             d2 = dict(ds[0])
                             d2['init'] = _subst_node(ds[0]['init'], x, arm)
+                            d2['_split_from'] = ds[0].get('_split_from') or ds[0]['init']      # what the local is declared with, all arms included
                             s2 = dict(s)
                             s2['c'] = [d2]
                         else:
@@ -645,6 +646,27 @@ def path_values(p, term):
             if isinstance(lhs, dict) and lhs.get('k') == 'DeclRefExpr' and lhs.get('local') and rhs is not None and lhs.get('ref') in out:
                 out[lhs['ref']] = ('+', out[lhs['ref']], term(rhs))        # what has been appended / added so far
     return out
+
+
+def split_values(p, term):
+    """{canonical term of a `c ? a : b` initialiser: canonical term of the arm this path selected} for the declarations that the path enumeration split."""
+    sub = {}
+    for st in p.stmts:
+        if st.get('k') == 'DeclStmt':
+            for d in st.get('c') or ():
+                if d.get('k') == 'VarDecl' and d.get('_split_from') is not None and isinstance(d.get('init'), dict):
+                    sub[term(d['_split_from'])] = term(d['init'])
+    return sub
+
+
+def subst_terms(t, sub):
+    if not sub:
+        return t
+    if isinstance(t, tuple):
+        if t in sub:
+            return sub[t]
+        return tuple(subst_terms(x, sub) for x in t)
+    return sub.get(t, t) if isinstance(t, str) else t
 
 
 def resolve_values(t, vals, depth=0):
